@@ -9,7 +9,9 @@
      a first token @T / @I / @S (how the harness realises the objects: Type objects of equal name,
      heap Ints, heap Strings) is skipped
      C P          call of a function whose body is P
-   argv[1] = spec | model1 (exception_catch clears `active`: the repaired code) | model0 (pinned code);
+   F<o>,<m> P    throw(X_o, "%$m%i", a, m) / throw(X_o, "%$", a): showing the argument a runs program P
+   argv[1] = spec | model, argv[2] = three digits: clear_active_on_catch, throw_records_obj_after_format,
+   try_keeps_obj (111 = the repaired code);
    one output line per case:
      <event> <event> ... <final>
      event:  t<n>@<d>  |  h<o>,<m>@<d>     (o = identity of the object bound in the handler)
@@ -29,7 +31,9 @@ let parse (line : string) : prog =
     | 't' -> PTick (num rest)
     | ';' -> let p = go () in let q = go () in PSeq (p, q)
     | '!' -> (match String.split_on_char ',' rest with
-              | [k; m] -> PThrow (num k, num m) | _ -> failwith "bad throw")
+              | [k; m] -> PThrow (num k, num m, PSkip) | _ -> failwith "bad throw")
+    | 'F' -> (match String.split_on_char ',' rest with
+              | [k; m] -> let f = go () in PThrow (num k, num m, f) | _ -> failwith "bad throw")
     | 'T' -> let fs = List.map num (List.filter (fun s -> s <> "") (String.split_on_char '.' rest)) in
              let b = go () in let h = go () in PTry (b, fs, h)
     | 'C' -> PCall (go ())
@@ -56,9 +60,11 @@ let () =
             | RNormal -> "N@0"
             | RRaised (k, m) -> Printf.sprintf "D%d,%d" (i (exn_kind_of k)) (i m)))
       end else begin
+        let fl = if Array.length Sys.argv > 2 then Sys.argv.(2) else "111" in
+        let b i = String.length fl > i && fl.[i] = '1' in
         let run = match mode with
-          | "model0" -> exn_mach_clr false | "model1" -> exn_mach_clr true
-          | _ -> failwith "mode: spec | model0 | model1" in
+          | "model" -> exn_mach_clr (b 0) (b 1) (b 2)
+          | _ -> failwith "mode: spec | model <clr><oaf><tko>" in
         let ((evs, r), st) = run p exn_init in
         print_endline (line_of evs (match r with
           | MNormal -> Printf.sprintf "N@%d" (i (exn_depth st))
